@@ -124,10 +124,9 @@ static void exec_maybe_in_thread(const Scenario *s, const Plan &p, RunResult &r)
     // carries the whole thread create/exit history and replays on its own
     RunResult first;
     ThreadRun t0{s, &p, &first};
-    pthread_attr_t at; pthread_attr_init(&at); pthread_attr_setstacksize(&at, 8 << 20);
-    pthread_t th; pthread_create(&th, &at, thread_run_main, &t0); pthread_join(th, nullptr);
+    run_in_thread(thread_run_main, &t0);
     ThreadRun t{s, &p, &r};
-    pthread_create(&th, &at, thread_run_main, &t); pthread_join(th, nullptr); pthread_attr_destroy(&at);
+    run_in_thread(thread_run_main, &t);
     r.probes.add("run_in_fresh_thread");
     if (first.v.set && !r.v.set) r.v = first.v;
     if (!r.v.set && first.ev.get() != r.ev.get())
